@@ -5,6 +5,7 @@ import (
 	"fmt"
 	"net/http"
 	"reflect"
+	"sort"
 	"strings"
 
 	"github.com/gookit/goutil"
@@ -298,7 +299,10 @@ func (r *Router) Resource(basePath string, controller any, middles ...HandlerFun
 	basePath += resName
 
 	r.Group(basePath, func() {
-		for name, methods := range RESTFulActions {
+		// NOTICE: register the actions in a fixed order, don't range over the map. When the base path
+		// has path variables "create" is a dynamic route like "show" and must be registered before it.
+		for _, name := range restfulActionNames() {
+			methods := RESTFulActions[name]
 			m := cv.MethodByName(name)
 			if !m.IsValid() {
 				continue
@@ -327,6 +331,25 @@ func (r *Router) Resource(basePath string, controller any, middles ...HandlerFun
 			}
 		}
 	}, middles...)
+}
+
+// action names of RESTFulActions in registration order: the conventional ones first, then custom ones sorted.
+func restfulActionNames() []string {
+	names := make([]string, 0, len(RESTFulActions))
+	for _, name := range []string{IndexAction, CreateAction, StoreAction, ShowAction, EditAction, UpdateAction, DeleteAction} {
+		if _, ok := RESTFulActions[name]; ok {
+			names = append(names, name)
+		}
+	}
+
+	n := len(names)
+	for name := range RESTFulActions {
+		if !strings.Contains(","+strings.Join(names[:n], ",")+",", ","+name+",") {
+			names = append(names, name)
+		}
+	}
+	sort.Strings(names[n:])
+	return names
 }
 
 // NotFound handlers for router
